@@ -302,6 +302,7 @@ frequent_items_sketch<T, W, H, E, A> frequent_items_sketch<T, W, H, E, A>::deser
   const auto lg_cur_size = read<uint8_t>(is);
   const auto flags_byte = read<uint8_t>(is);
   read<uint16_t>(is); // unused
+  if (!is.good()) throw std::runtime_error("error reading from std::istream");
 
   const bool is_empty = (flags_byte & (1 << flags::IS_EMPTY_1)) | (flags_byte & (1 << flags::IS_EMPTY_2));
 
@@ -316,6 +317,8 @@ frequent_items_sketch<T, W, H, E, A> frequent_items_sketch<T, W, H, E, A>::deser
     read<uint32_t>(is); // unused
     const auto total_weight = read<W>(is);
     const auto offset = read<W>(is);
+    if (!is.good()) throw std::runtime_error("error reading from std::istream");
+    check_num_items(num_items, lg_cur_size);
 
     // batch deserialization with intermediate array of items and weights
     using AllocW = typename std::allocator_traits<A>::template rebind_alloc<W>;
@@ -375,6 +378,7 @@ frequent_items_sketch<T, W, H, E, A> frequent_items_sketch<T, W, H, E, A>::deser
     W offset;
     ptr += copy_from_mem(ptr, offset);
 
+    check_num_items(num_items, lg_cur_size);
     ensure_minimum_memory(size, ptr - base + (sizeof(W) * num_items));
     // batch deserialization with intermediate array of items and weights
     using AllocW = typename std::allocator_traits<A>::template rebind_alloc<W>;
@@ -432,6 +436,16 @@ void frequent_items_sketch<T, W, H, E, A>::check_size(uint8_t lg_cur_size, uint8
   }
   if (lg_max_size > LG_MAX_MAP_SIZE) {
     throw std::invalid_argument("Possible corruption: lg_max_size must not be greater than " + std::to_string(LG_MAX_MAP_SIZE) + ": " + std::to_string(lg_max_size));
+  }
+}
+
+template<typename T, typename W, typename H, typename E, typename A>
+void frequent_items_sketch<T, W, H, E, A>::check_num_items(uint32_t num_items, uint8_t lg_cur_size) {
+  // a non-empty sketch holds at least one item and never more than the load factor of its table allows
+  const uint32_t capacity = static_cast<uint32_t>((1ULL << std::min<uint8_t>(lg_cur_size, 31)) * 3 / 4);
+  if (num_items < 1 || num_items > capacity) {
+    throw std::invalid_argument("Possible corruption: number of items must be between 1 and " + std::to_string(capacity) + " for lg_cur_size "
+        + std::to_string(lg_cur_size) + ": " + std::to_string(num_items));
   }
 }
 
